@@ -675,6 +675,12 @@ func (p *Parser) parseInfixExpression(left ast.Expression) ast.Expression {
 		}
 		if expression.Right != nil && expression.Right.String() != "" {
 			name := expression.Right.String()
+
+			// A key which is written as a string is the text of
+			// that string, not the text with its quotes.
+			if lit, ok := expression.Right.(*ast.StringLiteral); ok {
+				name = lit.Value
+			}
 			expression.Right = &ast.StringLiteral{Token: token.Token{Type: token.STRING, Literal: name}, Value: name}
 		}
 	}
